@@ -16,6 +16,8 @@ use std::time::Instant;
 use serde_json::{json, Value};
 
 pub static LAST_PANIC: Mutex<Option<(String, String)>> = Mutex::new(None);
+/// Trail of the artefact being replayed (set by `mlsmc <ID> replay`).
+pub static REPLAY_TRAIL: Mutex<Vec<String>> = Mutex::new(Vec::new());
 
 pub fn install_panic_hook() {
     let verbose = std::env::var("VERIF_VERBOSE").is_ok();
@@ -274,12 +276,25 @@ pub fn explore<M: Model>(m: &M, ctx: &mut Ctx) {
 /// Replay a recorded path (seed index, action indices...) and return the trail.
 pub fn replay<M: Model>(m: &M, ctx: &mut Ctx, path: &[usize]) {
     let seeds = m.seeds(ctx);
-    let (name, s) = &seeds[path[0]];
+    if path.is_empty() {
+        println!("(violation occurred while a seed was being scripted; seeds rebuilt)");
+        return;
+    }
+    // the recorded trail (action names) takes precedence over indices: it survives changes of
+    // the alphabet's enumeration order
+    let trail = REPLAY_TRAIL.lock().unwrap().clone();
+    let seed_idx = trail
+        .first()
+        .and_then(|t| seeds.iter().position(|(n, _)| format!("seed {n}") == *t))
+        .unwrap_or(path[0]);
+    let Some((name, s)) = seeds.get(seed_idx) else { machinery("replay: no such seed") };
     let mut s = s.clone();
     ctx.cur_trail = vec![format!("seed {name}")];
-    ctx.path = vec![path[0]];
+    ctx.path = vec![seed_idx];
     for (d, &i) in path[1..].iter().enumerate() {
         let acts = m.actions(&s, d);
+        let by_name = trail.get(d + 1).and_then(|t| acts.iter().position(|a| format!("{a:?}") == *t));
+        let i = by_name.unwrap_or(i);
         let Some(a) = acts.get(i) else { machinery("replay path diverges from the model's action enumeration") };
         ctx.cur_trail.push(format!("{a:?}"));
         ctx.path.push(i);
